@@ -18,7 +18,8 @@ CHECKS = {
               "IR level: factorize_sound (the argument factorisation of every accepted expression graph preserves its value), table classification/compression/access lemmas — real graphs and tables are compared with the Lean models. "
               "Code generation: generate_block_parts, the quadrature-loop assembly and generate_partition are transcribed in Lean and compared as exact structure with every intercepted call of the real generators; "
               "genBlock_spec / nest_accumulate / quadLoop_spec prove that the emitted loop nest adds Σ_q Σ_blocks fw·Π tables to A for all block dims, point counts and table contents (side conditions decidable, evaluated on every real block); "
-              "kernel_meets_spec_partial leaves one named hypothesis (the definitions before the tensor computation establish the fw values). Floating point: partial."),
+              "coeff_lincomb / coord_lincomb prove the coefficient and Jacobian / coordinate definition sections (Lean transcription of definitions.py and access.py, compared with every real call); kernel_meets_spec_defs_partial composes them: what remains "
+              "assumed is named in its docstring (optimize is C17's subject, table values = basis functions C02/C03's, boolean temporaries, tensor-factorised coefficient sections). Floating point: partial."),
         design="DESIGN.md §6 C01"),
     "C02": dict(
         technique="Lean 4 proof (macro layout bijections, facet maps, complete reference-geometry tables by decide) + regenerated tables + independent facet oracle",
@@ -66,8 +67,10 @@ CHECKS = {
               "with the oracle on real and complex data (complex mode: oracle evaluates UFL's sesquilinear lowering in complex arithmetic). Precision agreement is floating point: differential."),
         design="DESIGN.md §6 C09"),
     "C10": dict(
-        technique="Lean 4 proof (sum-factorisation identity, flat/pair re-indexing, diagonal, clamp bound) + option-pair differential runs",
-        text=("sum_factorization_identity(3), flat_pair_bijective, diagonal_of_outer, clamp_bound_real are proved for all rules/sizes; kernels compiled with/without sum_factorization, "
+        technique="Lean 4 proof (closed forms of what the generated diagonal and sum-factorised loop nests add to A, equal to the full / unfactorised sums; sum-factorisation identity; clamp bound) + structural correspondence with the real generator + option-pair differential runs",
+        text=("genBlock_diagonal_spec + diagonal_of_full (the part='diagonal' kernel tensor is the diagonal of the full kernel tensor when the block maps coincide), genBlock_tensor_spec + tensor_equals_full (the sum-factorised nest equals the unfactorised "
+              "block sum when each table is the tensor product of its 1D factor tables — checked numerically on every real sum-factorised group), for the Lean transcription of generate_block_parts that is compared structurally with the real generator; "
+              "sum_factorization_identity(3), flat_pair_bijective, diagonal_of_outer, clamp_bound_real are proved for all rules/sizes; kernels compiled with/without sum_factorization, "
               "part='diagonal', and swept table tolerances are compared with each other and with the oracle; inapplicable options must leave the generated code unchanged."),
         design="DESIGN.md §6 C10"),
     "C11": dict(
